@@ -177,7 +177,7 @@ def classify(octets):
     return {"class": "well-framed", "apci": ap, "invoke": ap["invoke"]}
 
 
-def run_batch(run, frames, label, wit_extra=None, followups=(), big_device=False):
+def run_batch(run, frames, label, wit_extra=None, followups=(), big_device=False, settle=70.0):
     """frames: list of octet strings (sent by station INJ) or (station, octets) pairs, handed to the device in one deferred
     batch; followups: [(delay, station, octets)] injected afterwards"""
     CLOCK.reset()
@@ -207,7 +207,7 @@ def run_batch(run, frames, label, wit_extra=None, followups=(), big_device=False
         for delay, sst, o in followups:
             CLOCK.drive(duration=delay, max_steps=200000)
             core.deferred(dev.node.response, PDU(o, source=Address(sst), destination=Address(DEV)))
-        CLOCK.drive(duration=70.0, max_steps=200000)
+        CLOCK.drive(duration=settle, max_steps=200000)
     except StepBudgetExceeded as err:
         run.violation("device-does-not-quiesce", dict(wit, error=str(err)))
         return
@@ -243,6 +243,12 @@ def run_batch(run, frames, label, wit_extra=None, followups=(), big_device=False
                 dcc_acked = True
     # an acknowledged DeviceCommunicationControl only matters when it really switched the device off
     dcc_acked = dcc_acked and getattr(dev.smap, "dccEnableDisable", "disable") != "enable"
+    if label == "timed-disable" and dcc_acked and not any(
+            cc["class"] == "well-framed" and cc["apci"]["service"] == 17 and cc is not classes2[0] and
+            replies.get(cc["apci"]["invoke"], [{}])[0].get("type") == W.SIMPLE_ACK for cc in classes2):
+        # the time of the (only acknowledged) disable is over, nothing else was acknowledged: the device has to be back
+        run.violation("timed-communication-disable-does-not-end", dict(wit, state=getattr(dev.smap, "dccEnableDisable", None)))
+        return False
     expected = {}
     for c in classes:
         if c["class"] in ("well-framed", "well-framed-routed", "well-framed-single-segment") and c["station"] == INJ:
@@ -292,7 +298,7 @@ def run_batch(run, frames, label, wit_extra=None, followups=(), big_device=False
         run.count("batches_with_accepted_communication_control")
     # replies with an invoke id nobody used
     for inv in replies:
-        if inv not in expected and not any(c.get("apci", {}).get("invoke") == inv for c in classes):
+        if inv not in expected and not any(c.get("apci", {}).get("invoke") == inv for c in classes2):
             run.violation("reply-with-invoke-id-of-no-request", dict(wit, invoke=inv))
             ok = False
     # residue
@@ -462,6 +468,27 @@ def main():
         batch.append(bytes(second))
         run.case(("after-iam", run.shard[0], i), sample={"request_after_i_am": valid[which][0], "i_am_segmentation": seg}, sample_key=("iam", seg))
         run_batch(run, batch, "request-after-i-am")
+    # 2f. a timed DeviceCommunicationControl 'disable' is in force; requests that are refused (wrong or missing password,
+    #     broken parameters) or garbage arrive meanwhile; when the time is over the device answers again
+    for i in range((600 if thorough else 16) // (run.shard[1] if thorough else 1)):
+        idx += 1
+        minutes = rng.choice([1, 1, 2])
+        disable = confirmed(180, 17, [ctx(0, bytes([minutes])), ctx(1, b"\x01"), ctx(2, b"\x00pw")])
+        fol = []
+        for _ in range(rng.randrange(1, 4)):
+            r = rng.random()
+            if r < 0.5:
+                o = confirmed(181 + len(fol), 17, [ctx(1, bytes([rng.choice([0, 1, 2])])), ctx(2, b"\x00" + rng.choice([b"px", b"", b"pw ", b"PW"]))])
+            elif r < 0.7:
+                o = confirmed(181 + len(fol), 17, [ctx(1, b"\x00")])                         # no password at all
+            elif r < 0.85:
+                o = rng.choice(valid)[1]
+            else:
+                o = bytes(rng.getrandbits(8) for _ in range(rng.randrange(0, 12)))
+            fol.append((rng.choice([1.0, 5.0, 20.0]), INJ, o))
+        run.case(("timed-disable", run.shard[0], i), sample={"timed_disable_minutes": minutes, "meanwhile": [o[:16] for d, st, o in fol]}, sample_key=("dcc", i < 1))
+        run_batch(run, [disable], "timed-disable", followups=fol, settle=60.0 * minutes + 15.0)
+        run.count("timed_disable_batches")
     # 3. random octets at three layers
     nrand = (80000 if thorough else 500) // (run.shard[1] if thorough else 1)
     for i in range(nrand):
